@@ -3046,6 +3046,8 @@ def distributed_shampoo(
     """
     num_devices = lax.psum(1, batch_axis_name)
     num_statistics = len(statistics)
+    if not statistics:
+      return states
     quantized_dtype = quantized_dtype_for_second_moment_statistics_buffers()
     # Complexity here is around: shapes needing be statically shaped,
     # our custom quantization type requires a different type of packing.
